@@ -515,20 +515,20 @@ func runC07(c *Ctx) {
 		q, t int
 		mod  func(k *c07Knobs, r *Rng)
 	}{
-		{"same-units", 150, 8000, func(k *c07Knobs, r *Rng) { k.nsrc = 1 + r.Intn(4) }},
-		{"convertible-units", 220, 12000, func(k *c07Knobs, r *Rng) { k.nsrc = 1 + r.Intn(3); k.units = 1; k.zeros = 3 }},
-		{"permuted-partial", 180, 9000, func(k *c07Knobs, r *Rng) { k.nsrc = 2 + r.Intn(3); k.units = r.Intn(2); k.perm = true; k.partial = true }},
-		{"f4-shape", 80, 4000, func(k *c07Knobs, r *Rng) { k.units = 1; k.zeros = 2; k.maxCol = 2 }},
-		{"self-diff", 80, 4000, func(k *c07Knobs, r *Rng) { k.nsrc = 1 + r.Intn(2); k.selfDiff = true; k.units = r.Intn(2) }},
-		{"normalize-multiple", 70, 3000, func(k *c07Knobs, r *Rng) { k.multiple = 1 + r.Intn(4); k.norm = true; k.zeros = 6 }},
-		{"errors", 80, 3000, func(k *c07Knobs, r *Rng) {
+		{"same-units", 150, 2500, func(k *c07Knobs, r *Rng) { k.nsrc = 1 + r.Intn(4) }},
+		{"convertible-units", 220, 4000, func(k *c07Knobs, r *Rng) { k.nsrc = 1 + r.Intn(3); k.units = 1; k.zeros = 3 }},
+		{"permuted-partial", 180, 3000, func(k *c07Knobs, r *Rng) { k.nsrc = 2 + r.Intn(3); k.units = r.Intn(2); k.perm = true; k.partial = true }},
+		{"f4-shape", 80, 1200, func(k *c07Knobs, r *Rng) { k.units = 1; k.zeros = 2; k.maxCol = 2 }},
+		{"self-diff", 80, 1200, func(k *c07Knobs, r *Rng) { k.nsrc = 1 + r.Intn(2); k.selfDiff = true; k.units = r.Intn(2) }},
+		{"normalize-multiple", 70, 1000, func(k *c07Knobs, r *Rng) { k.multiple = 1 + r.Intn(4); k.norm = true; k.zeros = 6 }},
+		{"errors", 80, 1000, func(k *c07Knobs, r *Rng) {
 			k.units = 2
 			k.partial = r.Bool()
 			k.dupTypes = r.P(1, 3)
 			k.periodMismatch = r.P(1, 2)
 			k.nsrc = 1 + r.Intn(3)
 		}},
-		{"extreme-values", 60, 3000, func(k *c07Knobs, r *Rng) { k.big = 1 + r.Intn(2); k.nsrc = 2 + r.Intn(2) }},
+		{"extreme-values", 60, 1000, func(k *c07Knobs, r *Rng) { k.big = 1 + r.Intn(2); k.nsrc = 2 + r.Intn(2) }},
 	}
 	for _, st := range streams {
 		n := c.Budget(st.q, st.t)
